@@ -172,8 +172,8 @@ class GenX:
         v, ms = node.vtl, node.meas
         mono = len(ms) == 1
         choices = ['substr', 'substr', 'replace', 'replace', 'trim', 'upperlower', 'concat_c', 'nvl']
-        if mono:
-            choices += ['instr', 'instr', 'instr', 'length']
+        if mono and not getattr(self, 'preserve', False):
+            choices += ['instr', 'instr', 'instr', 'length']      # these rename/retype the measure
         if kinds:
             choices = [c for c in choices if c in kinds] or choices
         k = r.choice(choices)
@@ -296,9 +296,11 @@ class GenX:
                 bn = 'DS_%d' % r.randint(1, nb)
                 node = self.leafnode(bn, env[bn])
                 if nops >= 2 and not self.pre_used and r.random() < 0.5:
-                    # an operand that is itself an operator result
+                    # an operand that is itself an operator result (measure-preserving: the operands of case must agree)
                     self.pre_used = True
+                    self.preserve = True
                     node = self.mat(self.post_step(node) or node)
+                    self.preserve = False
                 return node.vtl, node.ref, node.ops
             if r.random() < 0.15:
                 return 'null', '(sc n)', ()
@@ -353,7 +355,9 @@ class GenX:
         b = self.leafnode('DS_2', env['DS_2'])
         used = 1
         if nops >= 2 and r.random() < 0.5:
+            self.preserve = True            # the two operands of nvl must keep the same measures
             a = self.mat(self.post_step(a) or a)
+            self.preserve = False
             used += 1 if a.ops else 0
         mt = [t for _, t in meas]
         if r.random() < 0.5:
@@ -457,6 +461,34 @@ class GenX:
             used += 1
         return self.finish(env, node, 'string')
 
+    INSTR_PARAMS = [(None, None), (1, None), (2, None), (3, None), (4, 1), (None, 2), (1, 2), (2, 2), (3, 2), (None, 3), (2, 3), (7, None)]
+
+    def instr_case(self):
+        """instr on a one-measure String dataset rich in repeated / overlapping patterns; (start, occurrence) walk through
+        every combination of omitted / 1 / larger."""
+        r = self.r
+        self.k_instr = getattr(self, 'k_instr', -1) + 1
+        st, oc = self.INSTR_PARAMS[self.k_instr % len(self.INSTR_PARAMS)]
+        self.begin(False)
+        ids = self.ids()
+        rows_pool = ['abcabc', 'ababab', 'aaa', 'bab', 'a b', 'ba', '', 'aaaa', 'xabab', 'AbC', ' aB ', 'abcab']
+        d = self.dataset(ids, FAMILIES['str1'], r.choice([0.0, 0.2]), nkeys=6)
+        d['rows'] = [row[:-1] + (None if row[-1] is None else r.choice(rows_pool),) for row in d['rows']]
+        env = {'DS_1': d}
+        node = self.leafnode('DS_1', d)
+        p = r.choice(['a', 'b', 'ab', 'aa', 'ba', 'abc', 'c', 'aba'])
+        args = ['"%s"' % p]
+        if st is not None or oc is not None:
+            args.append('_' if st is None else str(st))
+        if oc is not None:
+            args.append(str(oc))
+        node = self.emit('instr(%s, %s)' % (node.vtl, ', '.join(args)),
+                         '(instr %s %s %s %s "int_var")' % (node.ref, enc_value(p), enc_value(st), enc_value(oc)),
+                         node.ids, [('int_var', 'Integer')], ('instr',))
+        if r.random() < 0.25:
+            node = self.post_step(node)
+        return self.finish(env, node, 'instr')
+
     def time_case(self):
         """`=` / `<>` over Date / Time_Period / Duration measures (dataset-scalar and dataset-dataset): the values pass
         through the comparison unchanged; the model compares the canonical spellings as strings."""
@@ -488,5 +520,5 @@ class GenX:
         return c
 
     def case(self, stream):
-        return {'case': self.case_case, 'nvl': self.nvl_case, 'member': self.member_case, 'string': self.string_case,
+        return {'case': self.case_case, 'nvl': self.nvl_case, 'member': self.member_case, 'string': self.string_case, 'instr': self.instr_case,
                 'time': self.time_case}[stream]()
